@@ -24,10 +24,11 @@ const (
 	opUT        // unprotect a tampered / truncated / garbage message
 	opDC        // derive a Child SA
 	opRT        // the last accepted genuine datagram arrives again, bit for bit (retransmission)
+	opUC        // a datagram with a VALID checksum whose content the cipher must refuse (a buggy or malicious peer holding the keys)
 	nOps
 )
 
-var opNames = []string{"protectI", "protectR", "unprotGenuine", "unprotForged", "deriveChild", "retransmission"}
+var opNames = []string{"protectI", "protectR", "unprotGenuine", "unprotForged", "deriveChild", "retransmission", "unprotUndecryptable"}
 
 type stepResult struct {
 	wire   []byte   // protect
@@ -197,6 +198,32 @@ func c17History(k *core.Case) {
 			m = gen.Msg(k.R, gen.Opt{Protected: true, MaxPayloads: 3, AllowEmpty: true})
 		case opRT:
 			m, presented, recvInit = lastAccMsg, append([]byte{}, lastAcc...), lastAccInit
+		case opUC:
+			hdr := gen.Header(k.R)
+			dir := raw.Dir(!recvInit)
+			var ivct []byte
+			switch k.R.Intn(4) {
+			case 0:
+				ivct = k.R.Bytes(16) // IV only
+			case 1:
+				ivct = k.R.Bytes(16 + 1 + k.R.Intn(30)) // not a whole number of blocks
+				if (len(ivct)-16)%16 == 0 {
+					ivct = ivct[:len(ivct)-1]
+				}
+			case 2:
+				ivct = k.R.Bytes(k.R.Intn(16)) // shorter than an IV
+			default: // pad length larger than the plaintext
+				pt := k.R.Bytes(16 * (1 + k.R.Intn(3)))
+				pt[len(pt)-1] = byte(len(pt) + k.R.Intn(200))
+				iv := k.R.Bytes(16)
+				ct, _ := ref.CBCEncrypt(dir.Ke, iv, pt)
+				ivct = append(iv, ct...)
+			}
+			if len(ivct) >= 16 {
+				presented = ref.AssembleProtected(hdr, uint8(k.R.Pick(0, 40, 41)), ivct[:16], ivct[16:], s, dir.Ka)
+			} else {
+				presented = ref.AssembleProtected(hdr, 40, nil, ivct, s, dir.Ka)
+			}
 		case opUG, opUT:
 			m = gen.Msg(k.R, gen.Opt{Protected: true, MaxPayloads: 3, AllowEmpty: true})
 			peer, _ := libsa.NewKey(raw)
@@ -268,7 +295,7 @@ func c17History(k *core.Case) {
 					if p != nil {
 						r.panicS = p.Sig()
 					}
-				case opUG, opUT, opRT:
+				case opUG, opUT, opRT, opUC:
 					d, err, p := libUnprotect(append([]byte{}, presented...), k.Index%2 == 0, key, recvInit)
 					r.msg, r.err = d, err != nil
 					if p != nil {
@@ -332,6 +359,11 @@ func c17History(k *core.Case) {
 				return
 			}
 			lastAcc, lastAccInit, lastAccMsg = append([]byte{}, presented...), recvInit, m
+		case opUC:
+			if !rl.err {
+				k.Violate("accepted", "undecryptable-accepted-by-long-lived", "a datagram the cipher must refuse was accepted", w)
+				return
+			}
 		case opUT:
 			if !rl.err && len(presented) > 16 && presented[16] == abs.PSK && !bytes.Equal(presented, nil) {
 				k.Violate("accepted", "forged-accepted-by-long-lived", "forged message accepted", w)
